@@ -6,6 +6,8 @@ import (
 	"testing"
 	"time"
 
+	"github.com/vx-labs/mqtt-protocol/packet"
+
 	"verif/internal/vk"
 )
 
@@ -406,10 +408,17 @@ func TestC18WorkerStarvation(t *testing.T) {
 		Clients int   `json:"hostile_clients"`
 		Qos     int32 `json:"publish_qos"`
 		Whole   bool  `json:"whole_body_sent"`
+		// Announced: remaining length announced by each hostile PUBLISH (0 = 21 MB)
+		Announced int `json:"announced_remaining_length,omitempty"`
 	}
-	paths := []sp{{22, 0, false}, {22, 1, false}, {45, 1, false}}
+	paths := []sp{{22, 0, false, 0}, {22, 1, false, 0}, {45, 1, false, 0}}
 	if vk.Thorough() {
-		paths = append(paths, sp{22, 2, false}, sp{22, 1, true})
+		paths = append(paths, sp{22, 2, false, 0}, sp{22, 1, true, 0})
+	}
+	// sizes around what the message log accepts at most (20,000,000 bytes per stored entry; the stored form of a publish is a
+	// few bytes longer than its MQTT form): every length from 40 below the limit to 8 above it in steps of 4 (thorough: 1)
+	for d := -40; d <= 8; d += vk.Pick(4, 1) {
+		paths = append(paths, sp{2, 1, false, 20_000_000 + d})
 	}
 	RunPaths(t, "C18", "C18/publish-worker-starvation", "TestC18WorkerStarvation", len(paths), vk.Pick(5*time.Minute, 15*time.Minute),
 		func(t *testing.T, i int, rep *vk.Report) {
@@ -429,7 +438,10 @@ func TestC18WorkerStarvation(t *testing.T) {
 				wsub.Subscribe(1, 1, "wit/#")
 				wsub.Subscribe(2, 0, "big/#") // the oversized publishes have a destination: they reach the log, which refuses them
 				w.Step()
-				const announced = 21 << 20
+				announced := 21 << 20
+				if p.Announced > 0 {
+					announced = p.Announced
+				}
 				for k := 0; k < p.Clients; k++ {
 					h := w.NewClient(fmt.Sprintf("hostile%d", k), 1, AckNone)
 					if h.Connect(ConnectOpts{ClientID: fmt.Sprintf("hostile%d", k), KeepAlive: 30}) != 0 {
@@ -484,6 +496,7 @@ func TestC18WorkerStarvation(t *testing.T) {
 		func(rep *vk.Report) {
 			rep.Rule = "22 or 45 clients (the broker runs 20 publish workers and 20 connection set-up workers) each send one PUBLISH announcing a 21 MB body (above what the message log accepts) on a topic with a subscriber and close the connection after a few body bytes (thorough: also the whole body); afterwards a witness QoS 1 publish must be acknowledged and delivered within 10 s"
 			rep.Floor("paths", 3, rep.Nontrivial)
+			rep.Bounds["announced_lengths_around_the_log_limit"] = "20,000,000 - 40 .. + 8"
 		})
 }
 
@@ -583,5 +596,94 @@ func TestC18SilentReader(t *testing.T) {
 		func(rep *vk.Report) {
 			rep.Rule = "a subscriber with keep-alive 1 / 2 / 0 (= 30) s that reads nothing after its SUBSCRIBE (with and without PINGREQs every 300 ms) while 1 or 3 messages are published to it; within 2 x keep-alive + 10 s a witness QoS 1 publish is acknowledged and delivered and an unacknowledged QoS 1 delivery to another session is retransmitted at least twice"
 			rep.Floor("paths", 6, rep.Nontrivial)
+		})
+}
+
+// TestC18SlowConnect: clients that open a connection and send their CONNECT a byte at a time, never finishing it. The
+// broker has 20 connection set-up workers and gives a connection 3 s to present its CONNECT; however the bytes are spaced,
+// a client arriving later must still be admitted: 20 or 25 such connections, one byte every 0.5 / 1.5 / 2.5 s, a witness
+// arriving 3.5 s or 8 s after them that must hold its CONNACK within 5 s.
+func TestC18SlowConnect(t *testing.T) {
+	type lp2 struct {
+		Clients  int `json:"trickling_connections"`
+		GapMs    int `json:"ms_between_bytes"`
+		WitnessS int `json:"witness_arrives_after_tenths_of_s"`
+	}
+	var paths []lp2
+	for _, n := range []int{20, 25} {
+		for _, gap := range []int{500, 1500, 2500} {
+			for _, ws := range []int{35, 80} {
+				paths = append(paths, lp2{n, gap, ws})
+			}
+		}
+	}
+	RunPaths(t, "C18", "C18/slow-connect", "TestC18SlowConnect", len(paths), vk.Pick(4*time.Minute, 10*time.Minute),
+		func(t *testing.T, i int, rep *vk.Report) {
+			p := paths[i]
+			RunBubble(t, fmt.Sprintf("p%d", i), func(t *testing.T) {
+				w := NewWorld(t, 1)
+				defer w.Close()
+				connect := EncodeConnect(&packet.Connect{Header: &packet.Header{}, ClientId: []byte("a-rather-long-client-identifier-0123456789"), KeepaliveTimer: 60, Clean: true})
+				var tr []*Client
+				for k := 0; k < p.Clients; k++ {
+					c := w.NewClient(fmt.Sprintf("trickle%d", k), 1, AckNone)
+					tr = append(tr, c)
+				}
+				start := time.Now()
+				stop := make(chan struct{})
+				done := make(chan struct{})
+				go func() {
+					defer close(done)
+					for pos := 0; pos < len(connect)-1; pos++ { // the last byte never comes
+						for _, c := range tr {
+							if !c.BrokerClosed() {
+								c.SendRaw(connect[pos : pos+1])
+							}
+						}
+						select {
+						case <-stop:
+							return
+						case <-time.After(time.Duration(p.GapMs) * time.Millisecond):
+						}
+					}
+				}()
+				w.Idle(time.Duration(p.WitnessS) * 100 * time.Millisecond)
+				wit := w.NewClient("witness", 1, AckAll)
+				var rc int32 = -1
+				got := make(chan struct{})
+				go func() {
+					defer close(got)
+					if err := wit.SendRaw(EncodeConnect(&packet.Connect{Header: &packet.Header{}, ClientId: []byte("witness"), KeepaliveTimer: 600, Clean: true})); err != nil {
+						return
+					}
+				}()
+				w.Idle(5 * time.Second)
+				for _, r := range wit.Received() {
+					if ca, ok := r.Pkt.(*packet.ConnAck); ok {
+						rc = ca.ReturnCode
+					}
+				}
+				close(stop)
+				for _, c := range tr {
+					c.Drop()
+				}
+				w.Idle(time.Duration(p.GapMs)*time.Millisecond + time.Second)
+				<-done
+				<-got
+				if rc != 0 {
+					rep.Violate(vk.Violation{Sig: "c18-connect-starved-by-slow-connects", Msg: fmt.Sprintf("%+v: a client arriving %.1f s after %d connections that send their CONNECT one byte every %d ms had no CONNACK 5 s later (code %d, -1 = none; witness closed=%v)", p, float64(p.WitnessS)/10, p.Clients, p.GapMs, rc, wit.BrokerClosed()), Replay: p})
+					return
+				}
+				_ = start
+				Observe(w, rep)
+				MarkNontrivial(fmt.Sprintf("%+v", p))
+				rep.Nontrivial++
+				rep.Sample(p)
+			})
+		},
+		func(i int) any { return paths[i] },
+		func(rep *vk.Report) {
+			rep.Rule = "20 or 25 connections (the broker runs 20 connection set-up workers) send a CONNECT one byte every 0.5 / 1.5 / 2.5 s and never finish it; a client arriving 3.5 s or 8 s later sends a complete CONNECT and must hold CONNACK 0 within 5 s"
+			rep.Floor("paths", int64(len(paths)), rep.Nontrivial)
 		})
 }
